@@ -242,6 +242,17 @@ func c29Check(r *kit.Run, sp c29Spec) (res c29Res, ran bool) {
 	if !pb.Equal(before, orig) || !bytes.Equal(c29Det(before), c29Det(orig)) {
 		r.Violation("C29:request-mutated-by-marshal:"+class, fmt.Sprintf("%+v: Marshal changed the request it was given", sp), sp)
 	}
+	// The store shares one marshaler between all its writers: the bytes handed back for this request
+	// must not change when the same marshaler encodes another request before they are used
+	// (the interleaving Marshal(A), Marshal(B), use A).
+	subBefore := append([]byte(nil), sub...)
+	if _, _, err := m.Marshal(c29OtherRequest()); err != nil {
+		r.Violation("C29:marshal-error:"+class, fmt.Sprintf("%+v: Marshal of a second request failed: %v", sp, err), sp)
+	}
+	if !bytes.Equal(sub, subBefore) {
+		r.Violation("C29:marshaled-bytes-changed-by-a-later-marshal:"+class, fmt.Sprintf("%+v (compressed=%v): the %d bytes returned by Marshal were overwritten when the same marshaler encoded another request", sp, compressed, len(subBefore)), sp)
+		return res, true
+	}
 	entry, err := Marshal(&proto.Command{Type: ctype, SubCommand: sub, Compressed: compressed})
 	if err != nil {
 		r.Violation("C29:marshal-error:"+class, fmt.Sprintf("%+v: command Marshal failed: %v", sp, err), sp)
@@ -304,6 +315,13 @@ func c29Check(r *kit.Run, sp c29Spec) (res c29Res, ran bool) {
 	}
 	r.Validated(1)
 	return res, true
+}
+
+// c29OtherRequest is a request that every threshold setting used here compresses (one statement of
+// 4200 compressible bytes: above the largest size threshold, 4096).
+func c29OtherRequest() Requester {
+	return &proto.ExecuteRequest{Request: &proto.Request{Statements: []*proto.Statement{
+		{Sql: "INSERT INTO other(v) VALUES('" + strings.Repeat("z", 4200) + "')"}}}}
 }
 
 func c29Uniq(v []int) []int {
